@@ -39,14 +39,14 @@ var errMemo = errors.New("computation failed")
 func memRun(p memProg, run func(bodies []func()) *vsync.Result) ([]tt.Op, error) {
 	var ev []tt.Op
 	vtime.Enable(false)
-	vtime.OnJump = func(d time.Duration) { ev = append(ev, op("adv", int(d/time.Millisecond))) }
+	vtime.OnJump = func(d time.Duration) { logEv(&ev, op("adv", int(d/time.Millisecond))) }
 	defer func() { vtime.OnJump = nil }()
 	exp := time.Duration(p.Exp) * time.Millisecond
 	if p.Exp <= 0 {
 		exp = cache.NoExpiration
 	}
 	m := gogu.NewMemoizer[string, int](exp, 0)
-	ev = append(ev, op("new", p.Exp))
+	logEv(&ev, op("new", p.Exp))
 	// the items the executions hand back are made beforehand (an Item can only come out of a cache)
 	pool := cache.New[string, int](cache.NoExpiration, 0)
 	items := map[int]*cache.Item[int]{}
@@ -70,7 +70,7 @@ func memRun(p memProg, run func(bodies []func()) *vsync.Result) ([]tt.Op, error)
 			for _, o := range ops {
 				if o == "sweep" {
 					m.Cache.DeleteExpired()
-					ev = append(ev, op("sweep"))
+					logEv(&ev, op("sweep"))
 					continue
 				}
 				if o[0] == 'a' {
@@ -82,7 +82,7 @@ func memRun(p memProg, run func(bodies []func()) *vsync.Result) ([]tt.Op, error)
 				}
 				k := int(o[1] - '0')
 				vsync.Point()
-				ev = append(ev, op("inv", id, k))
+				logEv(&ev, op("inv", id, k))
 				// long keys that share their first 24 bytes
 				it, err := m.Memoize(fmt.Sprintf("memoized-computation-key-%d", k), func() (*cache.Item[int], error) {
 					nexec++
@@ -91,26 +91,26 @@ func memRun(p memProg, run func(bodies []func()) *vsync.Result) ([]tt.Op, error)
 					if !vsync.Active() {
 						th = 0
 					}
-					ev = append(ev, op("fnstart", th, k, e))
+					logEv(&ev, op("fnstart", th, k, e))
 					vsync.Point() // the computation takes a while: anything may happen meanwhile
 					if failIt[e] && e <= 8 {
-						ev = append(ev, op("fnend", e, 0, 0))
+						logEv(&ev, op("fnend", e, 0, 0))
 						return items[e], errMemo // an error is an error, whatever comes with it
 					}
 					if fails[e] || e > 8 {
-						ev = append(ev, op("fnend", e, 0, 0))
+						logEv(&ev, op("fnend", e, 0, 0))
 						return nil, errMemo
 					}
-					ev = append(ev, op("fnend", e, 1, 100+e))
+					logEv(&ev, op("fnend", e, 1, 100+e))
 					return items[e], nil
 				})
 				switch {
 				case err != nil && it == nil:
-					ev = append(ev, op("ret", id, 0, 0))
+					logEv(&ev, op("ret", id, 0, 0))
 				case err != nil:
-					ev = append(ev, op("ret", id, 0, it.Val())) // an error together with a value: recorded as it is
+					logEv(&ev, op("ret", id, 0, it.Val())) // an error together with a value: recorded as it is
 				default:
-					ev = append(ev, op("ret", id, 1, it.Val()))
+					logEv(&ev, op("ret", id, 1, it.Val()))
 				}
 			}
 		}
@@ -132,7 +132,7 @@ func memRun(p memProg, run func(bodies []func()) *vsync.Result) ([]tt.Op, error)
 		end.N = "deadlock"
 	}
 	for id := range res.Panics {
-		ev = append(ev, op("panic", id))
+		logEv(&ev, op("panic", id))
 	}
 	if p.Pre == nil {
 		p.Pre = []string{}
